@@ -1859,10 +1859,31 @@ type 'entry slot = 'entry option
 type 'entry dir = 'entry slot list
 
 val scan :
-  ('a1 -> n) -> 'a1 dir -> nat -> n -> n -> ((nat * 'a1) list * bool) * nat
+  ('a2 -> 'a1 -> 'a2) -> ('a2 -> bool) -> 'a1 dir -> nat -> 'a2 ->
+  ((nat * 'a1) list * bool) * nat
 
 val page :
+  ('a2 -> 'a1 -> 'a2) -> ('a2 -> bool) -> 'a1 dir -> nat -> 'a2 ->
+  ((nat * 'a1) list * bool) * nat
+
+type rd_budget = n * n
+
+val rd_charge : ('a1 -> n) -> rd_budget -> 'a1 -> rd_budget
+
+val rd_full : rd_budget -> bool
+
+val page_readdir :
   ('a1 -> n) -> 'a1 dir -> nat -> n -> ((nat * 'a1) list * bool) * nat
+
+type rdp_budget = (n * n) * (n * n)
+
+val rdp_charge : ('a1 -> n) -> ('a1 -> n) -> rdp_budget -> 'a1 -> rdp_budget
+
+val rdp_full : rdp_budget -> bool
+
+val page_readdirplus :
+  ('a1 -> n) -> ('a1 -> n) -> 'a1 dir -> nat -> n -> n -> ((nat * 'a1)
+  list * bool) * nat
 
 type oattrs = { oa_ftype : n; oa_size : n; oa_fileid : n; oa_atime : 
                 (n * n); oa_mtime : (n * n); oa_nlink : n }
@@ -1947,8 +1968,21 @@ val readdir_cost : (name * n) -> n
 val model_page :
   (name * n) option list -> n -> n -> ((nat * (name * n)) list * bool) * nat
 
+val eNTRYPLUS_BAGGAGE : n
+
+val rdplus_dcost : (name * n) -> n
+
+val rdplus_pcost : (name * n) -> n
+
+val model_pageplus :
+  (name * n) option list -> n -> n -> n -> ((nat * (name * n))
+  list * bool) * nat
+
 val readdir_matches_model :
   n -> disk -> n -> n -> n -> odirent list -> bool -> bool
+
+val readdirplus_matches_model :
+  n -> disk -> n -> n -> n -> n -> odirent list -> bool -> bool
 
 val lOGSZ : n
 
